@@ -53,6 +53,25 @@ fn write_version(root: &Path, idx: usize, ver: i64) {
     std::fs::rename(&tmp, &path).unwrap();
 }
 
+/// Concatenated database: the whole file is rewritten from the per-zone versions,
+/// with an mtime of its own for every rewrite.
+fn write_concat(path: &Path, state: &[i64; 3], stamp: i64) {
+    use crate::tzcorpus::ZoneSrc;
+    let mut zs: Vec<ZoneSrc> = vec![ZoneSrc { name: "Always".into(), class: "c19".into(), bytes: tzif_fixed(42) }];
+    for (idx, v) in state.iter().enumerate() {
+        if *v > 0 {
+            zs.push(ZoneSrc { name: NAMES[idx].1.to_string(), class: "c19".into(), bytes: tzif_fixed(code(idx, *v)) });
+        }
+    }
+    let refs: Vec<&ZoneSrc> = zs.iter().collect();
+    let tmp = path.with_extension(format!("tmp{stamp}"));
+    std::fs::write(&tmp, crate::loaders::build_concatenated(&refs)).unwrap();
+    let f = std::fs::File::options().write(true).open(&tmp).unwrap();
+    f.set_modified(SystemTime::UNIX_EPOCH + Duration::from_secs(1_600_000_000 + stamp as u64 * 10)).unwrap();
+    drop(f);
+    std::fs::rename(&tmp, path).unwrap();
+}
+
 fn name_idx(n: &str) -> usize {
     NAMES.iter().position(|x| x.0 == n).unwrap()
 }
@@ -97,7 +116,8 @@ fn how_of(evs: &[jiff::__verif::Event]) -> String {
 }
 
 pub fn run_replay(a: &Args) {
-    let mut out = Out::new(&a.out, "c19replay", 200_000);
+    let stem = a.opt("stem").unwrap_or_else(|| "c19replay".into());
+    let mut out = Out::new(&a.out, &stem, 200_000);
     let file = a.opt("histories").expect("--histories FILE");
     let ttl_ticks: u32 = a.opt("ttl").and_then(|s| s.parse().ok()).unwrap_or(2);
     let text = std::fs::read_to_string(&file).unwrap();
@@ -115,9 +135,38 @@ pub fn run_replay(a: &Args) {
         let mut steps: Vec<Value> = Vec::new();
         let mut db: Option<TimeZoneDatabase> = None;
         let mut gets = 0usize;
+        let concat = a.opt("db").as_deref() == Some("concat");
+        let cfile = root.join("tzdata");
+        let mut cstate = [0i64; 3];
         for (i, st) in hist.iter().enumerate() {
             let op = st["op"].as_str().unwrap_or("");
             match op {
+                "init" if concat => {
+                    for (idx, (k, _)) in NAMES.iter().enumerate() {
+                        cstate[idx] = st["zones"][*k].as_i64().unwrap_or(0);
+                    }
+                    write_concat(&cfile, &cstate, 1);
+                    let d = TimeZoneDatabase::from_concatenated_path(&cfile).unwrap();
+                    d.__verif_set_ttl(TICK * ttl_ticks + TICK / 2);
+                    d.reset();
+                    let _ = jiff::__verif::take_events();
+                    db = Some(d);
+                }
+                "rewrite" => {
+                    let v = st["v"].as_i64().unwrap();
+                    for (idx, (k, _)) in NAMES.iter().enumerate() {
+                        match st["ch"][*k].as_str().unwrap_or("keep") {
+                            "new" => cstate[idx] = v,
+                            "drop" => cstate[idx] = 0,
+                            _ => {}
+                        }
+                    }
+                    write_concat(&cfile, &cstate, v);
+                }
+                "removefile" => {
+                    let _ = std::fs::remove_file(&cfile);
+                    cstate = [0; 3];
+                }
                 "init" => {
                     for (idx, (k, _)) in NAMES.iter().enumerate() {
                         if st["disk"][*k].as_i64().unwrap_or(0) > 0 {
